@@ -643,6 +643,22 @@ func (g *psGen) step() {
 	// definitions with a fresh name: `/vN <value> def`
 	add(4, g.defVar)
 	if len(g.vars) > 0 {
+		// an alias: a name bound to an executable name object
+		add(1, func() {
+			v := sim.Pick(t, g.vars)
+			name := fmt.Sprintf("al%d", g.nvar)
+			g.nvar++
+			g.emitD("/"+name, true, false)
+			g.emitD("{", true, true)
+			g.emit(v.name)
+			g.emitD("}", true, true)
+			g.emit("0")
+			g.op("get")
+			g.op("def")
+			g.vars = append(g.vars, userVar{name: name, k: v.k, push: v.push})
+		})
+	}
+	if len(g.vars) > 0 {
 		add(5, g.useVar)
 		add(1, func() {
 			v := sim.Pick(t, g.vars)
